@@ -1,11 +1,11 @@
-(* C02 on a fragment of the language, through the whole pipeline: every document whose blocks are text lines, .Bm and .Em
-   compiles (XHTML, fragment mode, any world) to a balanced output.  The invariant of Inv.v is lifted through the
-   dispatcher, both passes and the end-of-file sweep. *)
+(* C04 (balance half) on a fragment of the language, through the whole pipeline: every document whose blocks are text lines,
+   .Bm, .Em, .Sm and argument-less .P compiles (LaTeX, fragment mode, any world) to an output whose brace groups balance.
+   Mirrors Frag.v with the brace machine of TokL.v and the invariant of InvL.v. *)
 From Coq Require Import List NArith ZArith Bool Lia Arith String.
 Import ListNotations.
-Require Import Xhtml Exp Proc1 Proc2 Proc3 Ctl Loop Eqd Tok Inv.
+Require Import Latex Exp Proc1 Proc2 Proc3 Ctl Loop Eqd Tok TokL Inv InvL.
 Open Scope N_scope.
-Arguments run : simpl never.
+Arguments runL : simpl never.
 Arguments rev : simpl never.
 Arguments flat : simpl never.
 
@@ -40,11 +40,11 @@ Lemma push_inline_eqf tag id r s : push_inline tag id r s ~= s.
 Proof. unfold push_inline, mk_scope. destruct (cloc s) as [[[l n] f]|]; [apply upd_sinline_eqf|].
   eapply eqf_trans; [apply upd_sinline_eqf|]. destruct (has_cur s); [reflexivity|apply set_panic_eqf]. Qed.
 
-Lemma begin_paragraph_eqf s : fmt s = FX -> begin_paragraph s ~= s.
-Proof. intro Hf. unfold begin_paragraph. rewrite Hf. apply w_eqf. Qed.
-Lemma reopen_spanning_eqf s : fmt s = FX -> markup_ok (mtags s) -> reopen_spanning s ~= s.
-Proof. intros Hf Hm. unfold reopen_spanning. destruct (reopen_fold (mtags s) (sinline s) Hm s Hf eq_refl) as [x [Ex _]]. rewrite Ex. apply wl_eqf. Qed.
-Lemma begin_phrasing_eqf ns s : fmt s = FX -> markup_ok (mtags s) -> begin_phrasing ns s ~= s.
+Lemma begin_paragraph_eqf s : fmt s = FL -> begin_paragraph s ~= s.
+Proof. intro Hf. unfold begin_paragraph. rewrite Hf. apply eqf_refl. Qed.
+Lemma reopen_spanning_eqf s : fmt s = FL -> markup_okL (mtags s) -> reopen_spanning s ~= s.
+Proof. intros Hf Hm. unfold reopen_spanning. destruct (reopen_foldL (mtags s) (sinline s) Hm s Hf eq_refl) as [x [Ex _]]. rewrite Ex. apply wl_eqf. Qed.
+Lemma begin_phrasing_eqf ns s : fmt s = FL -> markup_okL (mtags s) -> begin_phrasing ns s ~= s.
 Proof. intros Hf Hm. unfold begin_phrasing. destruct (par s).
   - destruct (ws s && negb ns); [apply w_eqf|apply eqf_refl].
   - eapply eqf_trans; [apply set_par_eqf|]. destruct (negb (inl s) && negb (scope_verse s)).
@@ -52,7 +52,7 @@ Proof. intros Hf Hm. unfold begin_phrasing. destruct (par s).
       apply reopen_spanning_eqf; [rewrite (fmt_eqf _ _ H); exact Hf|rewrite (mtags_eqf _ _ H); exact Hm].
     + destruct (negb (inl s)); [apply eqd_eqf, err_eqd|apply eqf_refl]. Qed.
 
-Lemma process_text_eqf s : asis s = false -> fmt s = FX -> markup_ok (mtags s) -> process_text s ~= s.
+Lemma process_text_eqf s : asis s = false -> fmt s = FL -> markup_okL (mtags s) -> process_text s ~= s.
 Proof. intros Has Hf Hm. unfold process_text. destruct (process s); [|apply eqf_refl]. rewrite Has. cbn [negb].
   set (s1 := if negb (par s) then _ else _).
   assert (E1 : s1 ~= s).
@@ -72,10 +72,10 @@ Proof. unfold store_id. set (s1 := if has_key id (ids s) then _ else s).
   { unfold s1. destruct (has_key id (ids s)); [|apply eqf_refl]. unfold err. cbn. destruct s; reflexivity. }
   eapply eqf_trans; [|exact E]. destruct s1; reflexivity. Qed.
 
-Lemma macro_bm_eqf s : fmt s = FX -> markup_ok (mtags s) -> macro_bm s ~= s.
+Lemma macro_bm_eqf s : fmt s = FL -> markup_okL (mtags s) -> macro_bm s ~= s.
 Proof. intros Hf Hm. unfold macro_bm.
   pose proof (parse_opts_eqd specOptBm (args s) s) as E1. destruct (parse_opts specOptBm (args s) s) as [o s1]. cbn [snd] in E1.
-  pose proof (opt_render_eqd "id" o s1) as E2. pose proof (opt_render_escaped "id" o s1) as Hid.
+  pose proof (opt_render_eqd "id" o s1) as E2. pose proof (opt_render_escapedL "id" o s1) as Hid.
   destruct (opt_render "id" o s1) as [id s2]. cbn [fst snd] in *.
   assert (E : s2 ~~ s) by (eapply eqd_trans; eauto). specialize (Hid ltac:(rewrite (Inv.fmt_eqd _ _ E1); exact Hf)).
   assert (F2 : s2 ~= s) by (apply eqd_eqf; exact E).
@@ -102,7 +102,7 @@ Proof. intros Hf Hm. unfold macro_bm.
   eapply eqf_trans; [apply w_eqf|]. eapply eqf_trans; [apply eqd_eqf; exact Er|exact F5]. Qed.
 
 (* macroEm: besides what ~= ignores, it pops the innermost inline scope when there is one *)
-Lemma macro_em_eqf s : fmt s = FX -> markup_ok (mtags s) ->
+Lemma macro_em_eqf s : fmt s = FL -> markup_okL (mtags s) ->
   macro_em s ~= s /\ (process s = true -> sinline (macro_em s) = pop (sinline s)).
 Proof. intros Hf Hm. unfold macro_em. destruct (process s); cbn [negb]; [|split; [apply eqf_refl|discriminate]].
   pose proof (parse_opts_eqd specOptEm (args s) s) as E1. destruct (parse_opts specOptEm (args s) s) as [o s1]. cbn [snd] in E1.
@@ -121,14 +121,14 @@ Proof. intros Hf Hm. unfold macro_em. destruct (process s); cbn [negb]; [|split;
       destruct (str_eqb tx (sc_tag sc)); [exact H|]. eapply eqd_trans; [apply err_eqd|exact H].
     - destruct (sc_req sc); [apply err_eqd|reflexivity]. }
   set (r4 := match po_args o with [] => _ | a :: r => _ end).
-  assert (E4 : snd r4 ~~ s2 /\ textual (fst (fst r4))).
-  { unfold r4. destruct (po_args o) as [|a r]; [split; [exact E3|apply textual_nil]|].
+  assert (E4 : snd r4 ~~ s2 /\ textualL (fst (fst r4))).
+  { unfold r4. destruct (po_args o) as [|a r]; [split; [exact E3|apply textualL_nil]|].
     set (u := if negb (inl s3) then (true, s3) else is_punct_arg a s3).
     assert (Eu : snd u ~~ s3) by (unfold u; destruct (negb (inl s3)); [reflexivity|apply is_punct_arg_eqd]).
-    destruct u as [use s']. cbn [snd] in Eu. destruct use; [|split; [eapply eqd_trans; eauto|apply textual_nil]].
+    destruct u as [use s']. cbn [snd] in Eu. destruct use; [|split; [eapply eqd_trans; eauto|apply textualL_nil]].
     pose proof (render_text_eqd a s') as H. destruct (render_text_escaped a s') as [t Et]. destruct (render_text a s') as [p s'']. cbn [fst snd] in *.
     split; [eapply eqd_trans; [exact H|eapply eqd_trans; eauto]|].
-    rewrite Et, (escape_fn_FX s'); [apply html_escape_textual|]. rewrite (Inv.fmt_eqd _ _ Eu), (Inv.fmt_eqd _ _ E3), (fmt_eqf _ _ F2). exact Hf. }
+    rewrite Et, (escape_fn_FL s'); [apply latex_escape_textual|]. rewrite (Inv.fmt_eqd _ _ Eu), (Inv.fmt_eqd _ _ E3), (fmt_eqf _ _ F2). exact Hf. }
   destruct r4 as [[punct rest] s4]. cbn [fst snd] in E4. destruct E4 as [E4 Hpunct].
   assert (F4 : s4 ~= s) by (eapply eqf_trans; [apply eqd_eqf; exact E4|exact F2]).
   assert (Hsi4 : sinline s4 = pop (sinline s)) by (rewrite (eqd_get sinline _ _ (fun _ => eq_refl) E4); unfold s2; cbn; rewrite Hsi1; reflexivity).
@@ -153,19 +153,19 @@ Proof. intros Hf Hm. unfold macro_em. destruct (process s); cbn [negb]; [|split;
       rewrite (eqd_get sinline _ _ (fun _ => eq_refl) Er), Hsw. exact Hsi4.
 Qed.
 
-Lemma macro_sm_eqf s : fmt s = FX -> markup_ok (mtags s) -> macro_sm s ~= s.
+Lemma macro_sm_eqf s : fmt s = FL -> markup_okL (mtags s) -> macro_sm s ~= s.
 Proof. intros Hf Hm. unfold macro_sm.
   pose proof (parse_opts_eqd specOptSm (args s) s) as E1. destruct (parse_opts specOptSm (args s) s) as [o s1]. cbn [snd] in E1.
-  pose proof (opt_render_eqd "id" o s1) as E2. pose proof (opt_render_escaped "id" o s1) as Hid.
+  pose proof (opt_render_eqd "id" o s1) as E2. pose proof (opt_render_escapedL "id" o s1) as Hid.
   destruct (opt_render "id" o s1) as [id s2]. cbn [fst snd] in *.
   assert (E : s2 ~~ s) by (eapply eqd_trans; eauto). specialize (Hid ltac:(rewrite (Inv.fmt_eqd _ _ E1); exact Hf)).
   assert (F2 : s2 ~= s) by (apply eqd_eqf; exact E).
   destruct (process s2); cbn [negb]; [|destruct id; [exact F2|eapply eqf_trans; [apply store_id_eqf|exact F2]]].
   destruct (po_args o) as [|a0 al]; [eapply eqf_trans; [apply eqd_eqf, err_eqd|exact F2]|].
   set (r3 := if Nat.ltb 1 (List.length (a0 :: al)) then get_close_punct (a0 :: al) s2 else (a0 :: al, [], s2)).
-  assert (H3 : snd r3 ~~ s2 /\ textual (snd (fst r3))).
-  { unfold r3. destruct (Nat.ltb 1 (List.length (a0 :: al))); [|split; [reflexivity|apply textual_nil]].
-    split; [apply get_close_punct_eqd|apply get_close_punct_textual; rewrite (fmt_eqf _ _ F2); exact Hf]. }
+  assert (H3 : snd r3 ~~ s2 /\ textualL (snd (fst r3))).
+  { unfold r3. destruct (Nat.ltb 1 (List.length (a0 :: al))); [|split; [reflexivity|apply textualL_nil]].
+    split; [apply get_close_punct_eqd|apply get_close_punct_textualL; rewrite (fmt_eqf _ _ F2); exact Hf]. }
   destruct r3 as [[a punct] s3]. cbn [fst snd] in H3. destruct H3 as [E3 Hpunct].
   assert (F3 : s3 ~= s) by (eapply eqf_trans; [apply eqd_eqf; exact E3|exact F2]).
   set (s4 := begin_phrasing (flag "ns" o) s3).
@@ -188,28 +188,28 @@ Proof. intros Hf Hm. unfold macro_sm.
 
 Lemma set_verse_eqf s : verse s = false -> s <| verse := false |> ~= s.
 Proof. intro H. destruct s; cbn in *; subst; reflexivity. Qed.
-Lemma macro_p_plain_eqf pim s : fmt s = FX -> markup_ok (mtags s) -> args s = [] -> verse s = false -> macro_p pim s ~= s.
+Lemma macro_p_plain_eqf pim s : fmt s = FL -> markup_okL (mtags s) -> args s = [] -> verse s = false -> macro_p pim s ~= s.
 Proof. intros Hf Hm Ha Hv. unfold macro_p. destruct (process s); cbn [negb]; [|apply eqf_refl].
   rewrite Ha, parse_opts_nil. cbn [po_args].
   set (s2 := if par s then _ else _).
   assert (F2 : s2 ~= s).
   { unfold s2. destruct (par s).
-    - unfold close_spanning. destruct (close_fold (mtags s) (rev (sinline s)) Hm s Hf eq_refl) as [c [Ec _]]. rewrite Ec.
+    - unfold close_spanning. destruct (close_foldL (mtags s) (rev (sinline s)) Hm s Hf eq_refl) as [c [Ec _]]. rewrite Ec.
       set (s1 := process_paragraph (wl c s)).
       assert (F1 : s1 ~= s) by (eapply eqf_trans; [|apply (wl_eqf c s)]; unfold s1, process_paragraph, wo; destruct (wl c s); reflexivity).
       clearbody s1. destruct (scope_verse s1 && verse s1).
-      + unfold end_stanza, end_paragraph. rewrite (fmt_eqf _ _ F1), Hf. unfold X.end_stanza, X.end_paragraph.
-        eapply eqf_trans; [apply w_eqf|]. eapply eqf_trans; [apply w_eqf|exact F1].
-      + unfold end_paragraph. rewrite (fmt_eqf _ _ F1), Hf. unfold X.end_paragraph. eapply eqf_trans; [apply w_eqf|exact F1].
-    - unfold end_paragraph. rewrite Hf. unfold X.end_paragraph. apply set_par_eqf. }
+      + unfold end_stanza, end_paragraph. rewrite (fmt_eqf _ _ F1), Hf. unfold L.end_stanza, L.end_paragraph.
+        eapply eqf_trans; [apply w_eqf|exact F1].
+      + unfold end_paragraph. rewrite (fmt_eqf _ _ F1), Hf. unfold L.end_paragraph. eapply eqf_trans; [apply w_eqf|exact F1].
+    - unfold end_paragraph. rewrite Hf. unfold L.end_paragraph. eapply eqf_trans; [apply set_par_eqf|apply w_eqf]. }
   clearbody s2. eapply eqf_trans; [|exact F2]. eapply eqf_trans; [|apply (set_ws_eqf false s2)].
   apply set_verse_eqf. change (verse (s2 <| ws := false |>)) with (verse s2). rewrite (eqf_get verse _ _ (fun _ => eq_refl) F2). exact Hv. Qed.
 
 (* ---------- the fragment: top-level text blocks, Bm and Em; no user macros, no open #if/#de, no filter region, no blocks ---------- *)
 Record Side (s : st) : Prop := {
-  sd_mk : markup_ok (mtags s); sd_inl : inl s = false; sd_asis : asis s = false;
+  sd_mk : markup_okL (mtags s); sd_inl : inl s = false; sd_asis : asis s = false;
   sd_if : ifdepth s = 0%nat; sd_udef : udef s = None; sd_um : umacros s = []; sd_bf : bf s = None;
-  sd_sb : sblock s = []; sd_vs : verse s = false; sd_fmt : fmt s = FX; sd_mode : mode s = 0%nat
+  sd_sb : sblock s = []; sd_vs : verse s = false; sd_fmt : fmt s = FL; sd_mode : mode s = 0%nat
 }.
 Lemma Side_eqf a b : a ~= b -> Side b -> Side a.
 Proof. intros H [A1 A3 A4 A5 A6 A7 A8 A9 A10 A11 A12].
@@ -218,15 +218,15 @@ Proof. intros H [A1 A3 A4 A5 A6 A7 A8 A9 A10 A11 A12].
          |rewrite (eqf_get udef _ _ (fun _ => eq_refl) H)|rewrite (eqf_get umacros _ _ (fun _ => eq_refl) H)
          |rewrite (eqf_get bf _ _ (fun _ => eq_refl) H)|rewrite (eqf_get sblock _ _ (fun _ => eq_refl) H)
          |rewrite (eqf_get verse _ _ (fun _ => eq_refl) H)|rewrite (fmt_eqf _ _ H)|rewrite (eqf_get mode _ _ (fun _ => eq_refl) H)]; assumption. Qed.
-Definition P (p : bool) (s : st) : Prop := Side s /\ process s = p /\ (p = true -> Inv s).
+Definition P (p : bool) (s : st) : Prop := Side s /\ process s = p /\ (p = true -> InvL s).
 Definition in_frag (b : block) : Prop :=
   match b with BText _ _ => True | BMacro n a _ => n = R "Bm" \/ n = R "Em" \/ n = R "Sm" \/ (n = R "P" /\ a = []) end.
 
 Lemma scope_verse_nil s : sblock s = [] -> scope_verse s = false.
 Proof. intro H. unfold scope_verse. rewrite H. reflexivity. Qed.
-Lemma Inv_regs s s' : out s' = out s -> view s' = view s -> buf s' = buf s -> format s' = format s -> Inv s -> Inv s'.
+Lemma InvL_regs s s' : out s' = out s -> view s' = view s -> buf s' = buf s -> format s' = format s -> InvL s -> InvL s'.
 Proof. intros Ho Hv Hb Hf [A B C]. split.
-  - unfold elems. rewrite Ho, Hv. exact A.
+  - unfold depthL. rewrite Ho, Hv. exact A.
   - assert (Hp : par s' = par s) by (exact (f_equal (fun v => fst (fst (fst (snd v)))) Hv)). rewrite Hp, Hb. exact B.
   - unfold fmt in *. rewrite Hf. exact C. Qed.
 
@@ -234,11 +234,11 @@ Lemma step_frag pb p b c s : in_frag b -> P p s -> P p (snd (step pb b (c, s))).
 Proof. intros Hb (HS & Hpr & HI). unfold step. cbv zeta.
   set (s0 := set_regs b s).
   assert (F0 : s0 ~= s) by (unfold s0, set_regs; destruct b; destruct s; reflexivity).
-  assert (HI0 : p = true -> Inv s0) by (intro Hp; apply (Inv_regs s); [..|exact (HI Hp)]; unfold s0, set_regs; destruct b; reflexivity).
+  assert (HI0 : p = true -> InvL s0) by (intro Hp; apply (InvL_regs s); [..|exact (HI Hp)]; unfold s0, set_regs; destruct b; reflexivity).
   assert (Hpr0 : process s0 = p) by (rewrite (eqf_get process _ _ (fun _ => eq_refl) F0); exact Hpr).
   pose proof (Side_eqf _ _ F0 HS) as HS0. destruct HS0 as [A1 A3 A4 A5 A6 A7 A8 A9 A10 A11 A12].
   rewrite A5, A6. cbn [Nat.ltb Nat.leb].
-  assert (Hv : par s0 = false -> verse s0 = false /\ scope_verse s0 = false) by (intros _; split; [exact A10|apply scope_verse_nil; exact A9]).
+  assert (Hv : par s0 = false -> scope_verse s0 = false) by (intros _; apply scope_verse_nil; exact A9).
   destruct b as [n a l|t l].
   - rewrite A3, A7. cbn [assoc].
     assert (Ebf : bf_check n s0 = s0) by (unfold bf_check; rewrite A8; reflexivity).
@@ -247,34 +247,34 @@ Proof. intros Hb (HS & Hpr & HI). unfold step. cbv zeta.
       pose proof (macro_bm_eqf s0 A11 A1) as F1.
       assert (F : after_handler (R "Bm") (macro_bm s0) ~= s) by (eapply eqf_trans; [apply after_handler_eqf|]; eapply eqf_trans; [exact F1|exact F0]).
       split; [apply (Side_eqf _ _ F HS)|]. split; [rewrite (eqf_get process _ _ (fun _ => eq_refl) F); exact Hpr|].
-      intro Hp. pose proof (Inv_macro_bm s0 (HI0 Hp) A1 (eq_trans Hpr0 Hp) A3 Hv) as H.
-      apply (Inv_regs (macro_bm s0)); [..|exact H]; unfold after_handler; destruct (elided (macro_bm s0)); reflexivity.
+      intro Hp. pose proof (InvL_macro_bm s0 (HI0 Hp) A1 (eq_trans Hpr0 Hp) A3 Hv) as H.
+      apply (InvL_regs (macro_bm s0)); [..|exact H]; unfold after_handler; destruct (elided (macro_bm s0)); reflexivity.
     + change (control_builtin pb (R "Em")) with (@None (cst -> cst)). change (builtin (R "Em")) with (Some macro_em). cbn [snd]. rewrite Ebf.
       destruct (macro_em_eqf s0 A11 A1) as [F1 _].
       assert (F : after_handler (R "Em") (macro_em s0) ~= s) by (eapply eqf_trans; [apply after_handler_eqf|]; eapply eqf_trans; [exact F1|exact F0]).
       split; [apply (Side_eqf _ _ F HS)|]. split; [rewrite (eqf_get process _ _ (fun _ => eq_refl) F); exact Hpr|].
-      intro Hp. pose proof (Inv_macro_em s0 (HI0 Hp) A1 (eq_trans Hpr0 Hp) A3) as H.
-      apply (Inv_regs (macro_em s0)); [..|exact H]; unfold after_handler; destruct (elided (macro_em s0)); reflexivity.
+      intro Hp. pose proof (InvL_macro_em s0 (HI0 Hp) A1 (eq_trans Hpr0 Hp) A3) as H.
+      apply (InvL_regs (macro_em s0)); [..|exact H]; unfold after_handler; destruct (elided (macro_em s0)); reflexivity.
     + change (control_builtin pb (R "Sm")) with (@None (cst -> cst)). change (builtin (R "Sm")) with (Some macro_sm). cbn [snd]. rewrite Ebf.
       pose proof (macro_sm_eqf s0 A11 A1) as F1.
       assert (F : after_handler (R "Sm") (macro_sm s0) ~= s) by (eapply eqf_trans; [apply after_handler_eqf|]; eapply eqf_trans; [exact F1|exact F0]).
       split; [apply (Side_eqf _ _ F HS)|]. split; [rewrite (eqf_get process _ _ (fun _ => eq_refl) F); exact Hpr|].
-      intro Hp. pose proof (Inv_macro_sm s0 (HI0 Hp) A1 (eq_trans Hpr0 Hp) A3 Hv) as H.
-      apply (Inv_regs (macro_sm s0)); [..|exact H]; unfold after_handler; destruct (elided (macro_sm s0)); reflexivity.
+      intro Hp. pose proof (InvL_macro_sm s0 (HI0 Hp) A1 (eq_trans Hpr0 Hp) A3 Hv) as H.
+      apply (InvL_regs (macro_sm s0)); [..|exact H]; unfold after_handler; destruct (elided (macro_sm s0)); reflexivity.
     + change (control_builtin pb (R "P")) with (@None (cst -> cst)). change (builtin (R "P")) with (Some (macro_p pim)). cbn [snd]. rewrite Ebf.
       assert (Ha0 : args s0 = []) by reflexivity.
       pose proof (macro_p_plain_eqf pim s0 A11 A1 Ha0 A10) as F1.
       assert (F : after_handler (R "P") (macro_p pim s0) ~= s) by (eapply eqf_trans; [apply after_handler_eqf|]; eapply eqf_trans; [exact F1|exact F0]).
       split; [apply (Side_eqf _ _ F HS)|]. split; [rewrite (eqf_get process _ _ (fun _ => eq_refl) F); exact Hpr|].
-      intro Hp. pose proof (Inv_macro_p_plain pim s0 (HI0 Hp) A1 (eq_trans Hpr0 Hp) Ha0 A10 (scope_verse_nil _ A9)) as H.
-      apply (Inv_regs (macro_p pim s0)); [..|exact H]; unfold after_handler; destruct (elided (macro_p pim s0)); reflexivity.
+      intro Hp. pose proof (InvL_macro_p_plain pim s0 (HI0 Hp) A1 (eq_trans Hpr0 Hp) Ha0 (scope_verse_nil _ A9)) as H.
+      apply (InvL_regs (macro_p pim s0)); [..|exact H]; unfold after_handler; destruct (elided (macro_p pim s0)); reflexivity.
   - cbn [snd]. unfold text_block.
     pose proof (process_text_eqf s0 A4 A11 A1) as F1.
     assert (Ebf : bf (process_text s0) = None) by (rewrite (eqf_get bf _ _ (fun _ => eq_refl) F1); exact A8). rewrite Ebf.
     assert (F : process_text s0 <| prev := [] |> ~= s) by (eapply eqf_trans; [apply set_prev_eqf|]; eapply eqf_trans; [exact F1|exact F0]).
     split; [apply (Side_eqf _ _ F HS)|]. split; [rewrite (eqf_get process _ _ (fun _ => eq_refl) F); exact Hpr|].
-    intro Hp. pose proof (Inv_process_text s0 (HI0 Hp) A1 (eq_trans Hpr0 Hp) A4 (fun _ => A10)) as H.
-    apply (Inv_regs (process_text s0)); [..|exact H]; reflexivity.
+    intro Hp. pose proof (InvL_process_text s0 (HI0 Hp) A1 (eq_trans Hpr0 Hp) A4) as H.
+    apply (InvL_regs (process_text s0)); [..|exact H]; reflexivity.
 Qed.
 
 Lemma P_out_of_fuel p cs : P p (snd cs) -> P p (snd (out_of_fuel cs)).
@@ -288,19 +288,17 @@ Proof. induction fuel as [|f IH]; intros bs cs Hbs HP; [apply P_out_of_fuel; exa
   destruct (panicked (snd (step (run_blocks f) b (c, s)))); [exact H1|]. apply IHb. exact H1. Qed.
 
 (* ---------- the default markup table ---------- *)
-Lemma open_em id : escaped id -> open_chunk (R "em") (R "<em" ++ idattr id ++ R ">").
-Proof. intros [t ->] stk. unfold idattr. destruct (html_escape t) eqn:E; [reflexivity|]. rewrite <- E.
-  rewrite <- !app_assoc.
-  change (R "<em" ++ R " id=""" ++ html_escape t ++ R """" ++ R ">") with (R "<em id=""" ++ (html_escape t ++ (R """" ++ R ">"))).
-  rewrite run_app. change (run (R "<em id=""") (Txt, stk)) with (ORest (R "em") false, stk).
-  rewrite run_app, run_rest by apply html_escape_no_gt. reflexivity. Qed.
-Lemma markup_ok_nil : markup_ok [].
+Lemma target_textual id : escapedL id -> textualL (L.target id).
+Proof. intros [t ->]. unfold L.target. destruct (latex_escape t) eqn:E; [apply textualL_nil|]. rewrite <- E.
+  intro d. rewrite !runL_app. change (runL (R "\hypertarget{") (LTxt, d)) with (LTxt, S d). rewrite latex_escape_textual. reflexivity. Qed.
+Lemma markup_okL_nil : markup_okL [].
 Proof. intros tag id Hid. split.
-  - exists (R "<em" ++ idattr id ++ R ">"). split; [|apply (open_em id Hid)].
-    intros s Hs. unfold X.begin_markup_block. rewrite Hs. reflexivity.
-  - intros punct Hp. exists (R "</em>" ++ punct). split.
-    + intros s Hs. unfold X.end_markup_block. rewrite Hs. reflexivity.
-    + intro stk. rewrite run_app. change (run (R "</em>") (Txt, ielem [] tag :: stk)) with (Txt, stk). apply Hp. Qed.
+  - exists (L.target id ++ R "\emph{"). split.
+    + intros s Hs. unfold L.begin_markup_block. rewrite Hs. reflexivity.
+    + intro d. rewrite runL_app, (target_textual id Hid). reflexivity.
+  - intros punct Hp. exists ([] ++ R "}" ++ punct). split.
+    + intros s Hs. unfold L.end_markup_block. rewrite Hs. reflexivity.
+    + apply (brace_close punct Hp). Qed.
 
 (* ---------- end of file: closeUnclosedScopes(scopeInline), then the open paragraph ---------- *)
 Lemma top_none {A} (l : list A) : top l = None -> l = [].
@@ -308,7 +306,7 @@ Proof. unfold top. destruct l as [|a l]; [reflexivity|]. intro H. exfalso. rever
 Lemma pop_length {A} (l : list A) : List.length (pop l) = (List.length l - 1)%nat.
 Proof. unfold pop. induction l as [|a [|b r] IH]; [reflexivity|reflexivity|]. change (removelast (a :: b :: r)) with (a :: removelast (b :: r)).
   cbn [List.length] in *. rewrite IH. lia. Qed.
-Lemma Inv_quiet q s : Inv s -> Inv (s <| quiet := q |>). Proof. intros [A B C]. split; assumption. Qed.
+Lemma InvL_quiet q s : InvL s -> InvL (s <| quiet := q |>). Proof. intros [A B C]. split; assumption. Qed.
 Lemma set_quiet_eqf q s : s <| quiet := q |> ~= s. Proof. destruct s; reflexivity. Qed.
 Lemma set_macro_eqf q s : s <| macro := q |> ~= s. Proof. destruct s; reflexivity. Qed.
 Lemma set_args_eqf q s : s <| args := q |> ~= s. Proof. destruct s; reflexivity. Qed.
@@ -325,18 +323,18 @@ Proof. induction f as [|f IH]; intros s HP Hl; cbn [close_inline_loop]; [split; 
   assert (Hsi2 : sinline s2 = sinline s).
   { unfold s2. change (sinline (warn_unclosed sc (s <| macro := cur |>) <| macro := R "Em" |> <| args := tag_args (sc_tag sc) |>)) with (sinline (warn_unclosed sc (s <| macro := cur |>))).
     unfold warn_unclosed. rewrite (eqd_get sinline _ _ (fun _ => eq_refl) (err_eqd _ _)). reflexivity. }
-  assert (HI2 : Inv s2).
-  { unfold s2. apply (Inv_regs (warn_unclosed sc (s <| macro := cur |>))); try reflexivity.
-    unfold warn_unclosed. apply (Inv_eqd _ _ (err_eqd _ _)). apply (Inv_regs s); try reflexivity. exact HI. }
+  assert (HI2 : InvL s2).
+  { unfold s2. apply (InvL_regs (warn_unclosed sc (s <| macro := cur |>))); try reflexivity.
+    unfold warn_unclosed. apply (InvL_eqd _ _ (err_eqd _ _)). apply (InvL_regs s); try reflexivity. exact HI. }
   set (s2q := s2 <| quiet := true |>).
   assert (F2q : s2q ~= s) by (eapply eqf_trans; [apply set_quiet_eqf|exact F2]).
   pose proof (Side_eqf _ _ F2q HS) as HS2q.
   assert (Hpr2q : process s2q = true) by (rewrite (eqf_get process _ _ (fun _ => eq_refl) F2q); exact Hpr).
   destruct (macro_em_eqf s2q (sd_fmt _ HS2q) (sd_mk _ HS2q)) as [Fem Hpop]. specialize (Hpop Hpr2q).
-  pose proof (Inv_macro_em s2q (Inv_quiet true s2 HI2) (sd_mk _ HS2q) Hpr2q (sd_inl _ HS2q)) as HIem.
+  pose proof (InvL_macro_em s2q (InvL_quiet true s2 HI2) (sd_mk _ HS2q) Hpr2q (sd_inl _ HS2q)) as HIem.
   set (s3 := macro_em s2q <| quiet := quiet s2 |> <| args := [] |>).
   assert (F3 : s3 ~= s) by (unfold s3; eapply eqf_trans; [apply set_args_eqf|]; eapply eqf_trans; [apply set_quiet_eqf|]; eapply eqf_trans; [exact Fem|exact F2q]).
-  assert (HI3 : Inv s3) by (unfold s3; apply (Inv_regs (macro_em s2q)); try reflexivity; exact HIem).
+  assert (HI3 : InvL s3) by (unfold s3; apply (InvL_regs (macro_em s2q)); try reflexivity; exact HIem).
   assert (Hsi3 : sinline s3 = pop (sinline s)) by (unfold s3; change (sinline (macro_em s2q <| quiet := quiet s2 |> <| args := [] |>)) with (sinline (macro_em s2q)); rewrite Hpop; exact (f_equal pop Hsi2)).
   assert (HP3 : P true s3) by (split; [apply (Side_eqf _ _ F3 HS)|split; [rewrite (eqf_get process _ _ (fun _ => eq_refl) F3); exact Hpr|intros _; exact HI3]]).
   assert (Hl3 : (List.length (sinline s3) <= f)%nat) by (rewrite Hsi3, pop_length; lia).
@@ -348,13 +346,13 @@ Lemma close_unclosed_inline_P s : P true s -> P true (close_unclosed_inline s) /
 Proof. intro HP. unfold close_unclosed_inline. destruct (sinline s) as [|sc l] eqn:E; [split; [exact HP|exact E]|].
   set (s0 := s <| args := [] |>).
   assert (HP0 : P true s0).
-  { destruct HP as (HS & Hpr & HI). split; [apply (Side_eqf _ _ (set_args_eqf [] s) HS)|]. split; [exact Hpr|]. intros _. apply (Inv_regs s); try reflexivity. exact (HI eq_refl). }
+  { destruct HP as (HS & Hpr & HI). split; [apply (Side_eqf _ _ (set_args_eqf [] s) HS)|]. split; [exact Hpr|]. intros _. apply (InvL_regs s); try reflexivity. exact (HI eq_refl). }
   assert (Hl : (List.length (sinline s0) <= S (List.length (sc :: l)))%nat) by (change (sinline s0) with (sinline s); rewrite E; lia).
   destruct (close_inline_loop_P (macro s) (S (List.length (sc :: l))) s0 HP0 Hl) as [H1 H2].
   set (r := close_inline_loop (S (List.length (sc :: l))) (macro s) s0) in *.
   split.
   - destruct H1 as (HS & Hpr & HI). split; [eapply Side_eqf; [|exact HS]; eapply eqf_trans; [apply set_args_eqf|apply set_macro_eqf]|]. split; [exact Hpr|].
-    intros _. apply (Inv_regs r); try reflexivity. exact (HI eq_refl).
+    intros _. apply (InvL_regs r); try reflexivity. exact (HI eq_refl).
   - change (sinline (r <| macro := macro s |> <| args := args s |>)) with (sinline r). apply H2. change (sinline s0) with (sinline s). rewrite E. lia.
 Qed.
 
@@ -362,32 +360,32 @@ Lemma end_par_P s : P true s -> sinline s = [] ->
   let s' := end_par PNormal s in P true s' /\ par s' = false /\ sinline s' = [].
 Proof. intros (HS & Hpr & HI) Hsi. specialize (HI eq_refl). cbv zeta. unfold end_par. destruct (par s) eqn:Ep.
   2:{ split; [split; [exact HS|split; [exact Hpr|intros _; exact HI]]|]. split; assumption. }
-  unfold process_paragraph, format_paragraph, end_paragraph. rewrite (sd_fmt _ HS). unfold X.format_paragraph.
+  unfold process_paragraph, format_paragraph, end_paragraph. rewrite (sd_fmt _ HS). unfold L.format_paragraph.
   set (s1 := wo (flat (buf s)) s <| buf := [] |> <| par := false |>).
   assert (F1 : s1 ~= s) by (unfold s1, wo; destruct s; reflexivity).
-  rewrite (fmt_eqf _ _ F1), (sd_fmt _ HS). unfold X.end_paragraph.
+  rewrite (fmt_eqf _ _ F1), (sd_fmt _ HS). unfold L.end_paragraph.
   assert (Hp1 : par s1 = false) by reflexivity.
-  assert (Hw : w (R "</p>" ++ NLs) s1 = s1 <| wout ::= cons (R "</p>" ++ NLs) |>) by (unfold w; rewrite Hp1; reflexivity). rewrite Hw.
-  set (s2 := s1 <| wout ::= cons (R "</p>" ++ NLs) |>).
+  assert (Hw : w (NLs ++ NLs) s1 = s1 <| wout ::= cons (NLs ++ NLs) |>) by (unfold w; rewrite Hp1; reflexivity). rewrite Hw.
+  set (s2 := s1 <| wout ::= cons (NLs ++ NLs) |>).
   assert (F2 : s2 ~= s) by (eapply eqf_trans; [|exact F1]; unfold s2; destruct s1; reflexivity).
   split; [|split; [reflexivity|exact Hsi]].
   split; [apply (Side_eqf _ _ F2 HS)|]. split; [rewrite (eqf_get process _ _ (fun _ => eq_refl) F2); exact Hpr|]. intros _.
-  apply (Inv_step s _ (R "</p>" ++ NLs) HI).
-  - unfold out. change (wout s2) with ((R "</p>" ++ NLs) :: flat (buf s) :: wout s). change (buf s2) with (@nil str).
+  apply (InvL_step s _ (NLs ++ NLs) HI).
+  - unfold out. change (wout s2) with ((NLs ++ NLs) :: flat (buf s) :: wout s). change (buf s2) with (@nil str).
     rewrite !flat_cons, flat_nil, app_nil_r. reflexivity.
-  - unfold elems, view. change (sblock s2) with (sblock s). change (par s2) with false. rewrite Ep, (sd_sb _ HS), (sd_vs _ HS), Hsi. reflexivity.
+  - unfold depthL, view, depth_v. change (par s2) with false. rewrite Ep, Hsi. reflexivity.
   - reflexivity.
   - rewrite (fmt_eqf _ _ F2). exact (sd_fmt _ HS).
 Qed.
 
-Lemma elems_closed s : Side s -> par s = false -> elems s = [].
-Proof. intros HS Hp. unfold elems, view, elems_v. rewrite (sd_sb _ HS), Hp. reflexivity. Qed.
+Lemma depth_closed s : par s = false -> depthL s = 0%nat.
+Proof. intros Hp. unfold depthL, view, depth_v. rewrite Hp. reflexivity. Qed.
 
-Lemma eof_sweep_P s : P true s -> let s' := eof_sweep s in Side s' /\ Inv s' /\ par s' = false.
+Lemma eof_sweep_P s : P true s -> let s' := eof_sweep s in Side s' /\ InvL s' /\ par s' = false.
 Proof. intros (HS & Hpr & HI). specialize (HI eq_refl). cbv zeta. unfold eof_sweep.
   set (s3 := s <| has_cur := false |> <| macro := R "End Of File" |>).
   assert (HP3 : P true s3).
-  { split; [eapply Side_eqf; [|exact HS]; unfold s3; destruct s; reflexivity|]. split; [exact Hpr|]. intros _. apply (Inv_regs s); try reflexivity. exact HI. }
+  { split; [eapply Side_eqf; [|exact HS]; unfold s3; destruct s; reflexivity|]. split; [exact Hpr|]. intros _. apply (InvL_regs s); try reflexivity. exact HI. }
   destruct (close_unclosed_inline_P s3 HP3) as [HPa Hsia].
   destruct (end_par_P _ HPa Hsia) as (HPb & Hpb & _). cbv zeta in HPb, Hpb.
   set (sb := end_par PNormal (close_unclosed_inline s3)) in *. clearbody sb.
@@ -397,68 +395,57 @@ Proof. intros (HS & Hpr & HI). specialize (HI eq_refl). cbv zeta. unfold eof_swe
   assert (E5 : s5 ~~ sb) by (apply fold_err_eqd; intros a x; apply err_eqd).
   rewrite (eqd_get bf _ _ (fun _ => eq_refl) E5), (sd_bf _ HSb).
   rewrite (eqd_get udef _ _ (fun _ => eq_refl) E5), (sd_udef _ HSb).
-  split; [apply (Side_eqf _ _ (eqd_eqf _ _ E5) HSb)|]. split; [apply (Inv_eqd _ _ E5 HIb)|]. rewrite (eqd_get par _ _ (fun _ => eq_refl) E5). exact Hpb.
+  split; [apply (Side_eqf _ _ (eqd_eqf _ _ E5) HSb)|]. split; [apply (InvL_eqd _ _ E5 HIb)|]. rewrite (eqd_get par _ _ (fun _ => eq_refl) E5). exact Hpb.
 Qed.
 
 (* ---------- the two passes ---------- *)
-Lemma P_start wd main : P false (start_st (R "xhtml") 0 wd main).
-Proof. split; [split; try reflexivity; exact markup_ok_nil|]. split; [reflexivity|discriminate]. Qed.
+Lemma P_start wd main : P false (start_st (R "latex") 0 wd main).
+Proof. split; [split; try reflexivity; exact markup_okL_nil|]. split; [reflexivity|discriminate]. Qed.
 
 Lemma P_reset s : Side s -> P true (exp_reset (reset s)).
 Proof. intro HS.
-  assert (Hf : fmt (reset s) = FX) by (unfold fmt; change (format (reset s)) with (format s); exact (sd_fmt _ HS)).
+  assert (Hf : fmt (reset s) = FL) by (unfold fmt; change (format (reset s)) with (format s); exact (sd_fmt _ HS)).
   assert (Hm : mode (reset s) = 0%nat) by exact (sd_mode _ HS).
-  unfold exp_reset. rewrite Hf, Hm.
+  unfold exp_reset. rewrite Hf.
   split; [split; try reflexivity; [exact (sd_mk _ HS)|exact Hf|exact Hm]|]. split; [reflexivity|]. intros _.
   split; [reflexivity|reflexivity|exact Hf]. Qed.
 
-Theorem C02_fragment_balanced fuel wd main bs : Forall in_frag bs ->
-  let s := snd (compile fuel (R "xhtml") 0 wd main bs) in
+Theorem C04_fragment_balanced fuel wd main bs : Forall in_frag bs ->
+  let s := snd (compile fuel (R "latex") 0 wd main bs) in
   panicked s = None ->
-  run (flat (wout s)) (Txt, []) = (Txt, []) /\ In (curfile s, flat (wout s)) (files s).
+  runL (flat (wout s)) (LTxt, 0%nat) = (LTxt, 0%nat) /\ In (curfile s, flat (wout s)) (files s).
 Proof. intros Hbs. unfold compile.
-  pose proof (frag_invariant false fuel bs (start_ctl wd main, start_st (R "xhtml") 0 wd main) Hbs (P_start wd main)) as H1.
-  destruct (run_blocks fuel bs (start_ctl wd main, start_st (R "xhtml") 0 wd main)) as [c1 s1]. cbn [snd] in H1.
+  pose proof (frag_invariant false fuel bs (start_ctl wd main, start_st (R "latex") 0 wd main) Hbs (P_start wd main)) as H1.
+  destruct (run_blocks fuel bs (start_ctl wd main, start_st (R "latex") 0 wd main)) as [c1 s1]. cbn [snd] in H1.
   destruct (panicked s1) eqn:Ep1; [cbn [snd]; intro H; rewrite Ep1 in H; discriminate|].
   pose proof (frag_invariant true fuel bs (set_budget 0 false c1, exp_reset (reset s1)) Hbs (P_reset s1 (proj1 H1))) as H2.
   destruct (run_blocks fuel bs (set_budget 0 false c1, exp_reset (reset s1))) as [c2 s2]. cbn [snd] in H2.
   destruct (panicked s2) eqn:Ep2; [cbn [snd]; intro H; rewrite Ep2 in H; discriminate|].
   destruct (eof_sweep_P s2 H2) as (HS & HI & Hp). cbv zeta in HS, HI, Hp. set (s7 := eof_sweep s2) in *. clearbody s7.
-  assert (Epost : exp_post s7 = s7) by (unfold exp_post; rewrite (sd_fmt _ HS), (sd_mode _ HS); reflexivity). rewrite Epost.
+  assert (Epost : exp_post s7 = s7) by (unfold exp_post; rewrite (sd_fmt _ HS); reflexivity). rewrite Epost.
   cbn [snd]. intros _. change (wout (s7 <| files ::= fun l => l ++ [(curfile s7, flat (wout s7))] |>)) with (wout s7).
   split.
-  - destruct HI as [A B C]. unfold out in A. rewrite (B Hp), flat_nil, app_nil_r, (elems_closed _ HS Hp) in A. exact A.
+  - destruct HI as [A B C]. unfold out in A. rewrite (B Hp), flat_nil, app_nil_r, (depth_closed _ Hp) in A. exact A.
   - change (files (s7 <| files ::= fun l => l ++ [(curfile s7, flat (wout s7))] |>)) with (files s7 ++ [(curfile s7, flat (wout s7))]).
     apply in_or_app. right. left. reflexivity.
 Qed.
-Print Assumptions C02_fragment_balanced.
+Print Assumptions C04_fragment_balanced.
 
-(* non-vacuity and agreement with computation on a concrete document *)
-Definition ex_src := runes "a & b
-.Bm
-c <d>
-.Bm -id x
-nested
-.Em !
-.P
-new paragraph
-.Sm strong <t> .
-.Em
+
+(* non-vacuity and agreement with computation on the document of Frag.v *)
+Require Frag.
+Example fragL_example :
+  Forall in_frag (fst (parse Frag.ex_src)) /\
+  (let s := compile_source (R "latex") 0 Frag.ex_world (R "m.frundis") in
+   panicked s = None /\ flat (wout s) = runes "a \& b
+\emph{c <d>
+\hypertarget{x}{}\emph{nested}!}
+
+\emph{new paragraph
+\emph{strong <t>}.}
 e
-.Bm
-left open
-".
-Definition ex_world := mkWorld [] [(R "m.frundis", ex_src)] [] false [].
-Example frag_example :
-  Forall in_frag (fst (parse ex_src)) /\
-  (let s := compile_source (R "xhtml") 0 ex_world (R "m.frundis") in
-   panicked s = None /\ flat (wout s) = runes "<p>a &amp; b
-<em>c &lt;d&gt;
-<em id=""x"">nested</em>!</em></p>
-<p><em>new paragraph
-<em>strong &lt;t&gt;</em>.</em>
-e
-<em>left open</em></p>
+\emph{left open}
+
 ").
 Proof. split; [|vm_compute; split; reflexivity].
   vm_compute. repeat constructor; first [exact I | left; reflexivity | right; left; reflexivity | right; right; left; reflexivity | right; right; right; split; reflexivity]. Qed.
